@@ -253,10 +253,13 @@ def one_case(ctx, rng):
         inner=rng.choice(['single', 'mixed']),
         hints=rng.random() < 0.3)
     k = rng.choice([1, 2, 2, 3, 3, 4, 6])
+    # now and then with PostgreSQL's '#' operator directly in front of a
+    # line break (a '#' that must not open a comment; closes C05-m12)
+    cfg = grammar.Config(hash_operator=rng.random() < 0.3)
     if rng.random() < 0.12:
         # scripts rich in statements that touch the splitter's block state:
         # transaction control, DDL with IF [NOT] EXISTS, CREATE ...
-        gen = grammar.Gen(rng)
+        gen = grammar.Gen(rng, cfg)
         k = rng.choice([3, 4, 5, 6])
         stmts = [gen.statement(rng.choice(
             ['transaction', 'transaction', 'create_table', 'create_table',
@@ -264,7 +267,7 @@ def one_case(ctx, rng):
              'select', 'insert', 'update'])) for _ in range(k)]
         sc = grammar.Script(stmts, layout, rng)
     else:
-        sc = grammar.make_script(rng, None, nstmts=k, layout=layout)
+        sc = grammar.make_script(rng, cfg, nstmts=k, layout=layout)
     case = {'text': sc.text, 'k': k,
             'stmt_spans': sc.stmt_spans}
     pos = check_extents(rec, sc, case)
